@@ -9,9 +9,9 @@ git -C /repo worktree add -q --detach $wt HEAD || exit 3
 (cd $wt && git apply "$src/patch.diff") || { echo "$id patch does not apply"; git -C /repo worktree remove --force $wt; exit 3; }
 rsync -a --exclude .git --exclude replays --exclude .work /verif/ $vc/ 2>/dev/null
 out=""
-for p in C01 C02 C03 C04 C05 C06 C07 C08 C09 C10 C11 C12 C13 C14 C15 C16 C17 C18 C19 C20; do
+for p in ${PROPS:-C01 C02 C03 C04 C05 C06 C07 C08 C09 C10 C11 C12 C13 C14 C15 C16 C17 C18 C19 C20}; do
   r=$(cd $vc && VERIF_REPO=$wt timeout 1800 ./check $p 2>&1 | grep -E "^VIOLATION|^OK|HARNESS|Traceback" | tail -1)
   case "$r" in OK*) ;; *) out="$out\n  $p: $r"; [ -f $vc/replays/$p-0.json ] && cp $vc/replays/$p-0.json /tmp/refac-$id-$p.json ;; esac
 done
 git -C /repo worktree remove --force $wt; rm -rf $vc
-if [ -z "$out" ]; then echo "$id: all 20 checks OK"; else echo -e "$id: ALARMS$out"; fi
+if [ -z "$out" ]; then echo "$id: all checks OK (${PROPS:-all 20})"; else echo -e "$id: ALARMS$out"; fi
